@@ -5,10 +5,14 @@ import (
 	"errors"
 	"fmt"
 	"io"
+	"net"
 	"os"
 	"path/filepath"
+	"sync"
 	"sync/atomic"
 	"time"
+
+	"golang.org/x/crypto/ssh"
 
 	"github.com/scrapli/scrapligo/driver/options"
 	"github.com/scrapli/scrapligo/logging"
@@ -41,15 +45,47 @@ func workDir() string {
 	return d
 }
 
-// link is one real transport under test, opened against a raw loopback peer.
+var keyOnce sync.Once
+var clientKey *sshsim.KeyFile
+var clientKeyErr error
+
+func theKey() (*sshsim.KeyFile, error) {
+	keyOnce.Do(func() {
+		clientKey, clientKeyErr = sshsim.NewKeyFile(filepath.Join(workDir(), fmt.Sprintf("id_c16_%d", os.Getpid())))
+	})
+	return clientKey, clientKeyErr
+}
+
+// earlyPlan (telnet): what the peer sends immediately on accept, i.e. while the client is still in
+// its option-negotiation window inside Open.
+type earlyPlan struct {
+	Neg  bool   // a few option negotiations first
+	Data []byte // then this much data (no 0xff: inside the window 0xff starts a telnet command)
+}
+
+// the negotiations the early plan sends and the answers RFC 854/858 style clients of this library
+// give (DO SGA -> WILL SGA, WILL x -> DO x, DO x -> WONT x)
+var (
+	earlyNeg     = []byte{255, 253, 3, 255, 251, 1, 255, 253, 24}
+	earlyNegResp = []byte{255, 251, 3, 255, 253, 1, 255, 252, 24}
+)
+
+// link is one real transport under test with a raw loopback peer. The Transport object and the
+// peer's infrastructure live as long as the link; open() may be called repeatedly (re-open cycles).
 type link struct {
-	kind     string
-	tr       *transport.Transport
-	peer     io.ReadWriter // the peer's end of the byte stream
-	killPeer func()        // the peer goes away abruptly
-	cleanup  []func()
-	pid      int    // child of the system transport
-	pre      []byte // bytes read by the client after the readiness marker during setup
+	kind      string
+	tr        *transport.Transport
+	peer      io.ReadWriter // the peer's end of the byte stream of the current Open
+	killPeer  func()        // the peer goes away abruptly
+	peerClose func()        // harness-side release of the current peer connection
+	cleanup   []func()
+	pid       int    // child of the system transport (current Open)
+	pre       []byte // bytes the client already read during setup (after the readiness marker)
+	earlyDown []byte // telnet: sent by the peer on accept, not yet read by the client
+	earlyUp   []byte // telnet: negotiation answers the peer receives before any payload
+	inWindow  bool   // the early burst was written before Open returned
+	before    func() // runs right before Transport.Open
+	accept    func() error
 }
 
 const (
@@ -59,17 +95,34 @@ const (
 
 var errSetup = errors.New("setup")
 
-// openLink opens transport `kind` (system | system-netconf | standard-shell | standard-netconf | telnet) with a raw
-// peer. An error wrapping errSetup means the harness (not the library) failed.
-func openLink(kind string, readSize int) (l *link, err error) {
-	lg, _ := logging.NewInstance()
-	l = &link{kind: kind}
-	defer func() {
-		if err != nil {
-			l.close()
+func (l *link) readMarker(skipPreface bool) error {
+	var got []byte
+	deadline := time.Now().Add(20 * time.Second)
+	for !bytes.Contains(got, []byte(sshsim.ReadyMarker)) {
+		if time.Now().After(deadline) {
+			return fmt.Errorf("%w: no readiness marker, got %q", errSetup, got)
 		}
-	}()
+		b, e := l.tr.Read()
+		if e != nil {
+			return fmt.Errorf("%w: reading the readiness marker: %v (got %q)", errSetup, e, got)
+		}
+		got = append(got, b...)
+	}
+	i := bytes.Index(got, []byte(sshsim.ReadyMarker))
+	if i != 0 && !skipPreface {
+		return fmt.Errorf("%w: stand-in said %q before the marker", errSetup, got[:i])
+	}
+	l.pre = got[i+len(sshsim.ReadyMarker):]
+	return nil
+}
+
+// newLink builds the Transport object for `kind` (system | system-netconf | system-ssh |
+// standard-shell | standard-netconf | telnet) and the peer's infrastructure, without opening.
+func newLink(kind string, readSize int, early *earlyPlan) (*link, error) {
+	lg, _ := logging.NewInstance()
+	l := &link{kind: kind}
 	n := atomic.AddInt64(&seq, 1)
+	var e error
 	switch kind {
 	case "system", "system-netconf":
 		self, e := os.Executable()
@@ -90,74 +143,76 @@ func openLink(kind string, readSize int) (l *link, err error) {
 		if e != nil {
 			return l, e
 		}
-		if e = l.tr.Open(); e != nil {
-			return l, e
-		}
-		l.pid = sshsim.SystemPid(l.tr.Impl)
-		c, _, e := rl.Accept(20 * time.Second)
-		if e != nil {
-			return l, fmt.Errorf("%w: stand-in did not connect: %v", errSetup, e)
-		}
-		l.peer = c
-		l.killPeer = func() { c.Close() }
-		l.cleanup = append(l.cleanup, func() { c.Close() })
-		// session is up once the stand-in announced readiness (raw mode is set by then)
-		var got []byte
-		deadline := time.Now().Add(20 * time.Second)
-		for !bytes.Contains(got, []byte(sshsim.ReadyMarker)) {
-			if time.Now().After(deadline) {
-				return l, fmt.Errorf("%w: no readiness marker from the stand-in, got %q", errSetup, got)
-			}
-			b, e := l.tr.Read()
+		l.accept = func() error {
+			c, _, e := rl.Accept(20 * time.Second)
 			if e != nil {
-				return l, fmt.Errorf("%w: reading the readiness marker: %v (got %q)", errSetup, e, got)
+				return fmt.Errorf("%w: stand-in did not connect: %v", errSetup, e)
 			}
-			got = append(got, b...)
+			l.peer = c
+			l.killPeer = func() { c.Close() }
+			l.peerClose = func() { c.Close() }
+			// session is up once the stand-in announced readiness (raw mode is set by then)
+			return l.readMarker(false)
 		}
-		i := bytes.Index(got, []byte(sshsim.ReadyMarker))
-		if i != 0 {
-			return l, fmt.Errorf("%w: stand-in said %q before the marker", errSetup, got[:i])
-		}
-		l.pre = got[len(sshsim.ReadyMarker):]
-	case "standard-shell", "standard-netconf":
+	case "system-ssh", "standard-shell", "standard-netconf":
 		srv, e := sshsim.NewServer()
 		if e != nil {
 			return l, fmt.Errorf("%w: %v", errSetup, e)
 		}
 		l.cleanup = append(l.cleanup, srv.Close)
-		srv.SetAccount(sshUser, &sshsim.Account{Password: sshPw})
-		sessCh := make(chan *sshsim.Session, 1)
+		sessCh := make(chan *sshsim.Session, 4)
 		release := make(chan struct{})
 		l.cleanup = append(l.cleanup, func() { close(release) })
 		srv.SetHandler(func(s *sshsim.Session) {
+			if kind == "system-ssh" {
+				s.Write([]byte(sshsim.ReadyMarker))
+			}
 			sessCh <- s
 			<-release
 		})
-		opts := []util.Option{options.WithPort(srv.Port()), options.WithAuthUsername(sshUser), options.WithAuthPassword(sshPw),
-			options.WithAuthNoStrictKey(), options.WithTransportReadSize(readSize), options.WithTimeoutSocket(20 * time.Second)}
+		var opts []util.Option
+		tt := transport.StandardTransport
+		if kind == "system-ssh" { // the real ssh client: key auth (nobody types a password at this level), escape character off
+			k, e := theKey()
+			if e != nil {
+				return l, fmt.Errorf("%w: %v", errSetup, e)
+			}
+			srv.SetAccount(sshUser, &sshsim.Account{Keys: []ssh.PublicKey{k.Public}})
+			tt = transport.SystemTransport
+			opts = []util.Option{options.WithAuthPrivateKey(k.Path, ""), options.WithSystemTransportOpenArgs([]string{"-e", "none"})}
+		} else {
+			srv.SetAccount(sshUser, &sshsim.Account{Password: sshPw})
+			opts = []util.Option{options.WithAuthPassword(sshPw)}
+		}
+		opts = append(opts, options.WithPort(srv.Port()), options.WithAuthUsername(sshUser),
+			options.WithAuthNoStrictKey(), options.WithTransportReadSize(readSize), options.WithTimeoutSocket(20*time.Second))
 		if kind == "standard-netconf" {
 			opts = append(opts, withNetconf())
 		}
-		l.tr, e = transport.NewTransport(lg, "127.0.0.1", transport.StandardTransport, opts...)
+		l.tr, e = transport.NewTransport(lg, "127.0.0.1", tt, opts...)
 		if e != nil {
 			return l, e
 		}
-		if e = l.tr.Open(); e != nil {
-			return l, e
-		}
-		select {
-		case s := <-sessCh:
-			want := ""
-			if kind == "standard-netconf" {
-				want = "netconf"
+		l.accept = func() error {
+			select {
+			case s := <-sessCh:
+				want := ""
+				if kind == "standard-netconf" {
+					want = "netconf"
+				}
+				if s.Subsystem != want || (want == "" && !s.Pty) {
+					return fmt.Errorf("server got subsystem %q pty=%v, expected subsystem %q", s.Subsystem, s.Pty, want)
+				}
+				l.peer = s
+				l.killPeer = s.Kill
+				l.peerClose = s.Kill
+			case <-time.After(30 * time.Second):
+				return fmt.Errorf("%w: Open returned but the server saw no session", errSetup)
 			}
-			if s.Subsystem != want || (want == "" && !s.Pty) {
-				return l, fmt.Errorf("server got subsystem %q pty=%v, expected subsystem %q", s.Subsystem, s.Pty, want)
+			if kind == "system-ssh" {
+				return l.readMarker(true) // ssh prints "Warning: Permanently added …" first
 			}
-			l.peer = s
-			l.killPeer = s.Kill
-		case <-time.After(20 * time.Second):
-			return l, fmt.Errorf("%w: Open returned but the server saw no session", errSetup)
+			return nil
 		}
 	case "telnet":
 		p, e := sshsim.NewTCPPeer()
@@ -170,21 +225,79 @@ func openLink(kind string, readSize int) (l *link, err error) {
 		if e != nil {
 			return l, e
 		}
-		if e = l.tr.Open(); e != nil {
-			return l, e
+		connCh := make(chan net.Conn, 4)
+		var wroteAt atomic.Value
+		l.before = func() {
+			go func() {
+				c, ok := <-p.C
+				if !ok {
+					return
+				}
+				if early != nil { // a real telnet server talks first: negotiations, banner, login prompt
+					if early.Neg {
+						c.Write(earlyNeg)
+					}
+					c.Write(early.Data)
+					wroteAt.Store(time.Now())
+				}
+				connCh <- c
+			}()
 		}
-		select {
-		case c := <-p.C:
-			l.peer = c
-			l.killPeer = func() { c.Close() }
-			l.cleanup = append(l.cleanup, func() { c.Close() })
-		case <-time.After(20 * time.Second):
-			return l, fmt.Errorf("%w: Open returned but the TCP peer saw no connection", errSetup)
+		l.accept = func() error {
+			opened := time.Now()
+			select {
+			case c := <-connCh:
+				l.peer = c
+				l.killPeer = func() { c.Close() }
+				l.peerClose = func() { c.Close() }
+			case <-time.After(20 * time.Second):
+				return fmt.Errorf("%w: Open returned but the TCP peer saw no connection", errSetup)
+			}
+			if early != nil {
+				l.earlyDown = early.Data
+				if early.Neg {
+					l.earlyUp = earlyNegResp
+				}
+				if t, ok := wroteAt.Load().(time.Time); ok && t.Before(opened) {
+					l.inWindow = true
+				}
+			}
+			return nil
 		}
 	default:
 		return l, fmt.Errorf("%w: unknown transport kind %q", errSetup, kind)
 	}
-	return l, nil
+	return l, e
+}
+
+// open opens the Transport object (again) and waits for the peer and the readiness marker.
+func (l *link) open() error {
+	l.pre, l.peer, l.earlyDown, l.earlyUp, l.inWindow = nil, nil, nil, nil, false
+	if l.before != nil {
+		l.before()
+	}
+	if e := l.tr.Open(); e != nil {
+		return e
+	}
+	l.pid = sshsim.SystemPid(l.tr.Impl)
+	return l.accept()
+}
+
+// openLink = newLink + open. An error wrapping errSetup means the harness (not the library) failed.
+func openLink(kind string, readSize int, early ...*earlyPlan) (*link, error) {
+	var ep *earlyPlan
+	if len(early) > 0 {
+		ep = early[0]
+	}
+	l, err := newLink(kind, readSize, ep)
+	if err == nil {
+		err = l.open()
+	}
+	if err != nil {
+		l.closeTransport(true, 5*time.Second)
+		l.close()
+	}
+	return l, err
 }
 
 // closeTransport calls Transport.Close(force) with a bound; reports whether it returned.
@@ -205,8 +318,13 @@ func (l *link) closeTransport(force bool, d time.Duration) bool {
 	}
 }
 
-// close releases everything the case opened (idempotent enough for deferred use).
+// close releases everything the case opened (idempotent enough for deferred use) and kills and
+// reaps a child that is still around.
 func (l *link) close() {
+	if l.peerClose != nil {
+		l.peerClose()
+		l.peerClose = nil
+	}
 	for i := len(l.cleanup) - 1; i >= 0; i-- {
 		l.cleanup[i]()
 	}
